@@ -119,7 +119,7 @@ func runPF(seed uint64, n int, tier string) {
 }
 
 func runPFCase(id string, c *pfCase) {
-	defer recoverCase(id, c)
+	defer watchCase(id, c)()
 	cs := &Case{ID: id, Kind: c.Op, HypOK: true, Replay: c}
 	switch c.Op {
 	case "roughly":
